@@ -243,11 +243,10 @@ RECURSIVE InterAll(_, _)
 InterAll(m, i) == IF i > Len(m) THEN {} ELSE IF i = Len(m) THEN SeqSet(m[i]) ELSE SeqSet(m[i]) \cap InterAll(m, i + 1)
 UnionAll(m) == UNION { SeqSet(m[i]) : i \in 1..Len(m) }
 
-(* signature of F11: a query that resolves the webentities of the two ends of links (network, *)
-(* cited, citing), and the prefix -> webentity map changed while it ran                         *)
+(* signature of F11: the prefix -> webentity map changed while the query generators ran (a rule *)
+(* installation, or a crawl creating webentities, re-attributed pages)                           *)
 Reattributed(b, fin, o1) ==
-  b.qkind \in {"qnet", "qoutlinks", "qinlinks"}
-  /\ { <<fin.we0[j].l, fin.we0[j].id>> : j \in 1..Len(fin.we0) } # WSet(o1)
+  { <<fin.we0[j].l, fin.we0[j].id>> : j \in 1..Len(fin.we0) } # WSet(o1)
 
 CoopClauses(st, rm, d, gs, S, post, o0, o1) ==
   IF S.op = "CoopBegin"
@@ -281,10 +280,10 @@ CoopClauses(st, rm, d, gs, S, post, o0, o1) ==
                          /\ b.exc = ""
                          /\ InterAll(b.moments, 1) \subseteq SeqSet(b.result)
                          /\ (SeqSet(b.result) \subseteq UnionAll(b.moments) \/ Reattributed(b, fin, o1))>>,
-      \* known finding F11: the network, cited and citing queries resolve the two ends of a link at
-      \* different moments, so while another request re-attributes pages to new webentities they can
-      \* report an edge / a webentity that qualified at no single moment
-      <<"C16.bounds.network_reattribution", fin.last => \A j \in 1..Len(fin.bounds) :
+      \* known finding F11: query generators decide which subtree belongs to the webentity, and which
+      \* webentity the other end of a link belongs to, at different moments; while another request
+      \* re-attributes pages to new webentities they can report an item that qualified at no moment
+      <<"C16.bounds.reattribution", fin.last => \A j \in 1..Len(fin.bounds) :
                          LET b == fin.bounds[j] IN
                          ~(Reattributed(b, fin, o1) /\ ~(SeqSet(b.result) \subseteq UnionAll(b.moments)))>>
     >>)
